@@ -5,11 +5,12 @@
   `LocalStore.Prune`/`Verify`, `pruneWalk` = the walk with `RemoveChunk(id)` acting on the
   canonical path of the ID.  Tie: Prune result and remaining files of generated store directories
   (both formats, temp, junk, misplaced, upper-case names; arbitrary keep-sets) are compared with
-  the model exactly; Verify/repair is monitored on the implementation.  S3 and SFTP share the
-  naming scheme; their Prune implementations are not modelled here (S3 by reading: same filter
-  through `idFromName`; SFTP: see DESIGN §8 D14).
+  the model exactly; Verify/repair is monitored on the implementation.  `Model/SftpStore.lean` is
+  `SFTPStore.Prune` (after the repair of D14), compared the same way through pkg/sftp's server.
+  S3 shares the naming scheme; its Prune is not modelled (by reading: same filter through `idFromName`).
 -/
 import Desync.Proofs.LocalStoreProofs
+import Desync.Proofs.SftpStoreProofs
 
 namespace Desync.C16
 open Desync
@@ -59,6 +60,49 @@ theorem verify_considers_own_only (unc : Bool) (id : Bytes) (h : id.length = 32)
     verifyClassify unc (nameFromID unc id).2 = .consider id ∧
     verifyClassify unc (nameFromID (!unc) id).2 = .skip :=
   ⟨(classify_own unc id h).2, (classify_other_format unc id h).2⟩
+
+/-! ### the SFTP store -/
+
+/-- SFTP prune deletes only temporary files of interrupted uploads and the canonical file of an
+    unreferenced ID of the store's own format -/
+theorem sftp_prune_removes_only (unc : Bool) (keep : Bytes → Bool) (d d' : StoreDir)
+    (h : sftpPrune unc keep d = .ok d' ∨ sftpPrune unc keep d = .failed d') :
+    (∀ f ∈ d', f ∈ d) ∧
+    ∀ f ∈ d, f ∉ d' →
+      sftpClassify unc f.2 = .removeTemp ∨
+      ∃ id, id.length = 32 ∧ keep id = false ∧ f = nameFromID unc id ∧ sftpClassify unc f.2 = .consider id :=
+  ⟨sftpPrune_subset unc keep d d' h, sftpPrune_removed_only unc keep d d' h⟩
+
+theorem sftp_prune_keeps_referenced (unc : Bool) (keep : Bytes → Bool) (d d' : StoreDir) (id : Bytes)
+    (hk : keep id = true) (hid : id.length = 32) (hin : nameFromID unc id ∈ d)
+    (h : sftpPrune unc keep d = .ok d' ∨ sftpPrune unc keep d = .failed d') : nameFromID unc id ∈ d' :=
+  sftpPrune_keeps_referenced unc keep d d' id hk hid hin h
+
+theorem sftp_prune_keeps_other_format (unc : Bool) (keep : Bytes → Bool) (d d' : StoreDir)
+    (dir id : Bytes) (hid : id.length = 32) (hin : (dir, (nameFromID (!unc) id).2) ∈ d)
+    (h : sftpPrune unc keep d = .ok d' ∨ sftpPrune unc keep d = .failed d') :
+    (dir, (nameFromID (!unc) id).2) ∈ d' :=
+  sftpPrune_keeps_other_format unc keep d d' dir id hid hin h
+
+theorem sftp_prune_keeps_non_chunks (unc : Bool) (keep : Bytes → Bool) (d d' : StoreDir)
+    (f : Bytes × Bytes) (hs : sftpClassify unc f.2 = .skip) (hin : f ∈ d)
+    (h : sftpPrune unc keep d = .ok d' ∨ sftpPrune unc keep d = .failed d') : f ∈ d' :=
+  sftpPrune_keeps_skipped unc keep d d' f hs hin h
+
+/-- on success no temporary file of an interrupted upload and no unreferenced own-format chunk is left -/
+theorem sftp_prune_complete_on_success (unc : Bool) (keep : Bytes → Bool) (d d' : StoreDir)
+    (h : sftpPrune unc keep d = .ok d') :
+    (∀ f ∈ d', isSftpTempName f.2 (extOf unc) = false) ∧
+    (∀ id, id.length = 32 → keep id = false → nameFromID unc id ∈ d → nameFromID unc id ∉ d') :=
+  ⟨sftpPrune_no_temp_left unc keep d d' h, (sftpPrune_complete_on_success unc keep d d' h).2⟩
+
+/-- what an interrupted upload leaves behind is recognised, and a chunk name of either format never is -/
+theorem sftp_temp_names (unc : Bool) (id digits : Bytes) (h : id.length = 32) (hd : digits ≠ [])
+    (hall : digits.all isDigit = true) :
+    sftpClassify unc ((nameFromID unc id).2 ++ digits) = .removeTemp ∧
+    isSftpTempName (nameFromID unc id).2 (extOf unc) = false ∧
+    isSftpTempName (nameFromID (!unc) id).2 (extOf unc) = false :=
+  ⟨sftp_temp_classified unc id digits h hd hall, sftp_temp_not_chunk unc id h, sftp_temp_not_other_chunk unc id h⟩
 
 theorem gen_sites :
     Gen.site_str_tmpChunkPrefix_found = true ∧ Gen.site_str_CompressedChunkExt_found = true ∧
